@@ -198,6 +198,8 @@ def main(argv=None):
 
     # ---- floors / inconclusive
     incon = list(problems) + list(merged["inconclusive"])
+    if not merged["samples"]:
+        incon.append("no sample case was recorded by the check")
     for name, observed, required in fin.get("floors", []):
         if observed < required:
             incon.append(f"floor not met: {name} observed={observed} required>={required}")
